@@ -48,6 +48,10 @@ MUTS = [
  ('M18 weight_power_scale: a zero / non-finite power gives weight 1 times the stored weight instead of bad_weight', VFW,
   "                if not np.isfinite(p):\n                    p = bad_weight", "                if not np.isfinite(p):\n                    p = np.float32(1.0)"),
  ('M19 seeded C06-7: _apply_data_lost ORs into the chunk it was handed', 'PATCH', '/verif/seeded/C06-7/patch.diff', ''),
+ ('M20 fix of C06-F2 reverted: DictChunkStore slices beyond the end of its array (BadChunk for trailing dumps)', 'katdal/chunkstore_dict.py',
+  "            if any(s.start >= n and s.stop > s.start for s, n in zip(slices, array.shape)):\n                raise IndexError(f'Chunk {chunk_name!r} lies outside array of shape {array.shape}')\n", ""),
+ ('M21 DictChunkStore treats a chunk that merely touches the end of the array as outside (>= instead of >)', 'katdal/chunkstore_dict.py',
+  "if any(s.start >= n and s.stop > s.start for s, n in zip(slices, array.shape)):", "if any(s.stop >= n and s.stop > s.start for s, n in zip(slices, array.shape)):"),
 ]
 only = sys.argv[1:]
 res = []
